@@ -150,12 +150,11 @@ def diff_block(ctx, name, lines, pred=None):
     return out1
 
 
-def gen_idx_lines(ctx, quick, three, four):
+def gen_idx_lines(ctx, quick, three, four, full):
     r = ctx.rng
     lines = ["tb tables"]
     kk = (0,) * 8
     lines += [f"tb idx {cstr(kk)} {i}" for i in range(npos(kk))]
-    full = r.sample(three, 2) if quick else three
     for c in three:
         idxs = range(npos(c)) if c in full else sorted(r.sample(range(npos(c)), 3000))
         lines += [f"tb idx {cstr(c)} {i}" for i in idxs]
@@ -174,6 +173,36 @@ def pred_idx(lines, out):
             if any(x >= n for x in v) or v != sorted(v):
                 bad.append((i, f"TBPosition::getMoves returned an index outside the table or an unsorted list for `{l}`"))
     return bad
+
+
+def check_converse(ctx, harness, lines, out, full):
+    """Property of the generator's two move generators, evaluated on the implementation alone: on the positions the
+    retrograde loop works with (valid, king not capturable), getUnMoves is the converse relation of getMoves."""
+    for c in full:
+        pre = f"tb idx {cstr(c)} "
+        fw = {}
+        for l, o in zip(lines, out):
+            if l.startswith(pre) and o.startswith("m"):
+                fw[int(l[len(pre):])] = set(map(int, o.split()[1:]))
+        V = sorted(fw)
+        rc, uo, err = run_cmd([harness], [f"tb unidx {cstr(c)} {i}" for i in V])
+        if rc != 0 or len(uo) != len(V):
+            ctx.violation(f"harness died in unidx (rc={rc})", {"kind": "impl-crash", "stderr": err, "input": [f"tb unidx {cstr(c)} {V[min(len(uo), len(V) - 1)]}"]}); continue
+        conv = {i: set() for i in V}
+        for j in V:
+            for i in fw[j]:
+                if i in conv: conv[i].add(j)
+        ctx.count(len(V))
+        nbad = 0
+        for i, o in zip(V, uo):
+            un = set(x for x in map(int, o.split()[1:]) if x in fw)
+            if un != conv[i] and nbad < 2:
+                nbad += 1
+                miss, extra = sorted(conv[i] - un)[:5], sorted(un - conv[i])[:5]
+                ctx.violation(f"{cname(c)}: getUnMoves({i}) is not the converse of getMoves: predecessors missing {miss}, spurious {extra}",
+                              {"kind": "property-predicate", "what": "un-move generation is not the converse of move generation (retrograde search misses or invents predecessors)",
+                               "tie": "unmoves-converse", "input": [f"tb unidx {cstr(c)} {i}"] + [f"tb idx {cstr(c)} {j}" for j in (miss + extra)], "impl_output": o[:500]})
+    ctx.tie("unmoves-converse", kind="for every valid index of the fully enumerated classes: {j : i in getMoves(j)} == getUnMoves(i) on the real TBPosition", classes=[cname(c) for c in full])
 
 
 def random_men(r, codes, extra_ok=True):
@@ -243,9 +272,39 @@ def gen_probe_lines(ctx, c, quick):
     return lines, scope
 
 
+SYMS = [lambda s: s, lambda s: s ^ 7, lambda s: s ^ 56, lambda s: s ^ 63,
+        lambda s: (s % 8) * 8 + s // 8, lambda s: ((s % 8) * 8 + s // 8) ^ 7, lambda s: ((s % 8) * 8 + s // 8) ^ 56, lambda s: ((s % 8) * 8 + s // 8) ^ 63]
+
+
+def stratified_probes(ctx, c, dump, quick):
+    """for every byte value that occurs in the table: some indices holding it, turned into positions by the model
+    (`tb posidx`), each probed in a random one of its 8 symmetry images; returns (lines, expected index)"""
+    r = ctx.rng
+    byval = {}
+    per = 6 if quick else 40
+    for i in r.sample(range(len(dump)), min(len(dump), 400000)):
+        b = dump[i]
+        if b != 0xFF and len(byval.setdefault(b, [])) < per: byval[b].append(i)
+    idxs = sorted(i for v in byval.values() for i in v)
+    rc, pos, err = run_cmd([vlib.driver_bin()], [f"tb posidx {cstr(c)} {i}" for i in idxs])
+    lines, want = [], []
+    for i, p in zip(idxs, pos):
+        f = p.split()
+        sym = r.choice(SYMS)
+        men = [(int(m.split("@")[0]), sym(int(m.split("@")[1]))) for m in f[1:]]
+        r.shuffle(men)
+        lines.append(f"tb probe {r.choice([0, 1, 7, 30])} {f[0]} 0 " + " ".join(f"{k}@{s}" for k, s in men))
+        want.append(i)
+    return lines, want, sorted(byval)
+
+
 def run_probes(ctx, harness, c, path, quick):
     lines, scope = gen_probe_lines(ctx, c, quick)
     dump = open(path, "rb").read()
+    slines, want, values = stratified_probes(ctx, c, dump, quick)
+    want = [None] * len(lines) + want
+    lines += slines; scope += [True] * len(slines)
+    ctx.tie("probe", byte_values_probed=len(values))
     rc2, model, err2 = run_cmd([vlib.driver_bin(), "tbserve"] + list(map(str, c)) + [path], lines)
     if rc2 != 0 or len(model) != len(lines):
         ctx.violation("Lean driver died in tbserve", {"kind": "model-crash", "stderr": err2}, no_input=True)
@@ -258,11 +317,13 @@ def run_probes(ctx, harness, c, path, quick):
         out = out[1:]
         ctx.count(len(lines))
         nbad = 0
-        for l, o, m, insc in zip(lines, out, model, scope):
+        for l, o, m, insc, wi in zip(lines, out, model, scope, want):
             f = o.split()
             ply = int(l.split()[2])
             msg = None
-            if not insc and o != "none miss":
+            if wi is not None and f[0] != str(wi):
+                msg = f"{cname(c)}/{kind}: a symmetry image of the position of index {wi} is mapped to index {f[0]} (`{l}`)"
+            elif not insc and o != "none miss":
                 msg = f"{cname(c)}/{kind}: position outside the table's scope is answered: `{l}` -> `{o}`"
             elif f[0] != "none" and len(f) >= 2:
                 exp = conv(dump[int(f[0])], ply)
@@ -296,7 +357,7 @@ def abort_scenarios(ctx, quick, three, four):
             sc.append(f"tbabort {cstr(c)} hook {ph} {n} {newt} {1500000 if quick else 3000000} 1500 {r.randrange(1, 1 << 30)}")
     for c in (r.sample(four, 1) if quick else r.sample(four, 6)):
         pts = [(1, 0, 0), (1, r.randrange(1, 80), 0), (2, r.randrange(0, 80), 0), (3, 1, 0), (3, r.randrange(2, 12), 0), (3, r.randrange(12, 30), 0), (2, 40, 1)]
-        for ph, n, newt in (r.sample(pts, 3) if quick else pts):
+        for ph, n, newt in (r.sample(pts, 3) if quick else pts) + [(3, 999, 0)]:   # (3, 999): never fires = complete table + hash traffic
             sc.append(f"tbabort {cstr(c)} hook {ph} {n} {newt} 3000000 1500 {r.randrange(1, 1 << 30)}")
         for d in ([r.randrange(1000, 1500000)] if quick else [r.randrange(1000, 2500000) for _ in range(4)]):
             sc.append(f"tbabort {cstr(c)} delay {d} 0 0 3000000 1500 {r.randrange(1, 1 << 30)}")
@@ -465,7 +526,11 @@ def run(ctx):
                         "the harness reads private members (ttStorage, tbGen, usedSize) via #define private public; abort points are injected through the TEXEL_VERIF hook tbGenVerifHook",
                         "3M random hash inserts stand for 'ordinary hash traffic'"]
     # 1. model ties through the line protocol
-    diff_block(ctx, "index-level", gen_idx_lines(ctx, quick, three, four), pred_idx)
+    full = three
+    idx_lines = gen_idx_lines(ctx, quick, three, four, full)
+    idx_out = diff_block(ctx, "index-level", idx_lines, pred_idx)
+    if len(idx_out) == len(idx_lines):
+        check_converse(ctx, harness, idx_lines, idx_out, [(0,) * 8] + full)
     diff_block(ctx, "game-vs-movegen", gen_legal_lines(ctx, quick))
     # 2. tables + proven checker
     todo = two + three + ([r.choice(four)] if quick else four)
@@ -491,6 +556,19 @@ def run(ctx):
     # 4. abort clause
     run_aborts(ctx, harness, quick, three, four, njobs)
     run_histories(ctx, harness, quick, three)
+    if not quick:
+        # memory safety of the table region inside the transposition table (ASan + UBSan build)
+        asan = os.path.join(vlib.cxx_build("asan", ("vharness",)), "vharness")
+        c3, c4 = r.choice(three), r.choice(four)
+        al = [f"tb gen tt {cstr(c3)} {TMP}/asan3.tt", f"tb gen tt {cstr(c4)} {TMP}/asan4.tt",
+              f"tbabort {cstr(c3)} hook 3 2 0 500000 500 7", f"tbabort {cstr(c4)} hook 2 40 0 500000 500 7", f"tbabort {cstr(c4)} hook 3 999 0 2000000 500 7"]
+        al += gen_histories(ctx, True, three)[:4]
+        rc, out, err = run_cmd([asan], al)
+        ctx.count(len(al))
+        ctx.tie("sanitizer", kind="generation inside the transposition table, abort scenarios and histories under ASan+UBSan", ops=len(al), rc=rc)
+        if rc != 0 or len(out) != len(al):
+            ctx.violation(f"sanitizer build died after {len(out)} of {len(al)} operations (rc={rc})",
+                          {"kind": "impl-crash", "variant": "asan", "input": al[:len(out) + 1], "stderr": err})
     shutil.rmtree(TMP, ignore_errors=True)
     if not quick:
         vlib.leanchecker(ctx, ["TexelVerif.Props.C12"])
